@@ -183,13 +183,18 @@ def in_vocab(p):
 
 
 def dyadic_probs(rng, k):
-    """k non-negative dyadic numbers summing to 1 (zeros allowed)"""
+    """k non-negative dyadic numbers (zeros allowed) summing to 1 - or, one time in four, to a little
+    less or more, or to something else altogether: what a search records is whatever its solver
+    returned (C10 bounds its sum only by a tolerance), and the target holds what was recorded"""
     import numpy as np
 
     m = rng.choice([1, 2, 3, 4, 6, 8, 10])
     total = 1 << m
-    cuts = sorted(rng.randrange(total + 1) for _ in range(k - 1))
-    parts = [b - a for a, b in zip([0] + cuts, cuts + [total])]
+    mass = total
+    if rng.random() < 0.25:
+        mass = max(1, rng.choice([total - 1, total + 1, total - (total >> 3), total + (total >> 2), total >> 1, 2 * total]))
+    cuts = sorted(rng.randrange(mass + 1) for _ in range(k - 1))
+    parts = [b - a for a, b in zip([0] + cuts, cuts + [mass])]
     return np.array([p / total for p in parts], dtype=np.float32)
 
 
